@@ -388,7 +388,9 @@ impl ActionsGenerator for ProductionActionsGenerator<'_> {
                                     body.push(parse_quote! { #a_i });
                                 }
                                 [a] => {
-                                    let a_i = format_ident!("{}", to_snake_case(&a.name));
+                                    // The parameter is named after the field
+                                    // (see `get_action_args`), not its snake-case form.
+                                    let a_i = format_ident!("{}", a.name);
                                     if recursive.get() {
                                         body.push(parse_quote! { vec![Box::new(#a_i)] });
                                     } else {
